@@ -5,7 +5,7 @@ import numpy as np
 
 from .. import engine, optics as op, refmodel as rm
 from .. import histories
-from ..histories import t_callhist        # worker task of the history harness (mc/histories.py)
+from ..histories import t_callhist, t_cross      # worker tasks of the history harness (mc/histories.py)
 
 PID = 'C02'
 MOD = 'mc.props.c02'
@@ -216,6 +216,26 @@ def chk_round(case, acc, seed):
                       f'image -> pupil leg after an oversample-{os_} first leg differs from the Fraunhofer sum with input sampling du/oversample by {rm.maxerr(val, ref2):.3e}')
     if o2.ptype != lentil.pupil:
         acc.violation('prop:meta:ptype', case, f'{o2.ptype}')
+    # the same two legs with tilt metadata in front of the first: the first leg displaces the image, and that image -- nothing
+    # else -- is what the second leg transforms (a twin wavefront holding the first leg's field and no metadata gives the same)
+    try:
+        from lentil.field import Field
+        dupx = op.pair(du)
+        ang = (1.3 * dupx[0] / os_ / cfg['z'], -0.6 * dupx[1] / os_ / cfg['z'])
+        wt, _ = make_wavefront(dict(cfg, dir='p2i'), seed)
+        wt = wt * lentil.Tilt(x=ang[0], y=ang[1])
+        o1t = lentil.propagate_dft(wt, du, shape=shape1, oversample=os_)
+        o2t = lentil.propagate_dft(o1t, du2, shape=tuple(case['shape2']), oversample=case['os2'])
+        twin = lentil.Wavefront(o1t.wavelength, pixelscale=o1t.pixelscale, focal_length=o1t.focal_length, ptype=o1t.ptype)
+        twin.data = [Field(data=np.array(o1t.field, copy=True))]
+        twin.shape = tuple(o1t.shape)
+        o2w = lentil.propagate_dft(twin, du2, shape=tuple(case['shape2']), oversample=case['os2'])
+        a_, b_ = np.asarray(o2t.field), np.asarray(o2w.field)
+        if a_.shape != b_.shape or rm.maxerr(a_, b_) > 1e-9 * (1 + np.sum(np.abs(b_))):
+            acc.violation('prop:roundtrip:tilt-applied-again', case, f'after a tilted first leg the second leg differs from the transform of the first leg\'s field by {rm.maxerr(a_, b_):.3e}')
+        acc.cls('roundtrip:tilted')
+    except Exception as e:
+        acc.violation(f'prop:roundtrip:tilted:raises:{type(e).__name__}', case, repr(e))
     acc.cls('roundtrip')
     acc.case(case, outcome='roundtrip')
 
